@@ -16,7 +16,7 @@ import traceback
 
 HERE = os.path.dirname(os.path.abspath(__file__))
 ROOT = os.path.normpath(os.path.join(HERE, '..'))
-LEAN_DIR = os.path.join(ROOT, 'lean')
+LEAN_DIR = os.environ.get('VERIF_LEAN_DIR') or os.path.join(ROOT, 'lean')
 REPO = os.environ.get('LADYBUG_REPO', '/repo')
 EVIDENCE_DIR = os.path.join(ROOT, 'evidence')
 REPLAY_DIR = os.path.join(ROOT, 'replays')
